@@ -59,8 +59,11 @@ def check_dispatch(ctx, fb, rd):
             ctx.report(rd, key, f.where, bad, 'instantiation: ' + f.full[:300])
 
 
-def in_try_with_catch_all(fn, i):
-    """is node i lexically inside the try block of a CXXTryStmt that has a catch(...) handler?"""
+def in_try_with_catch_all(fn, i, bad_handlers=None):
+    """is node i lexically inside the try block of a CXXTryStmt that has a catch(...) handler storing
+    current_exception()?  Handlers of that try statement that complete the step with anything else than
+    current_exception() (and do not rethrow) are appended to bad_handlers: they turn some thrown types into a
+    different state than Exception."""
     par = fn.parents
     cur = i
     while cur in par:
@@ -69,13 +72,23 @@ def in_try_with_catch_all(fn, i):
         if n['k'] == 'CXXTryStmt':
             ch = n.get('ch', [])
             if ch and ch[0] == cur:  # came from the try block, not from a handler
+                ok = False
+                others = []
                 for h in ch[1:]:
                     hn = fn.nodes[h]
-                    # catch (...) has no exception declaration: a single child (the handler block)
                     if hn['k'] == 'CXXCatchStmt':
-                        calls = [fn.nodes[d].get('cn', '') for d in fn.descendants(h)]
+                        ds = [fn.nodes[d] for d in fn.descendants(h)]
+                        calls = [d.get('cn', '') for d in ds]
+                        rethrow = any(d['k'] == 'CXXThrowExpr' and not [c for c in d.get('ch', []) if c >= 0]
+                                      for d in ds)
                         if 'std::current_exception' in calls:
-                            return True
+                            ok = True
+                        elif not rethrow:
+                            others.append(h)
+                if ok:
+                    if bad_handlers is not None:
+                        bad_handlers.extend(others)
+                    return True
         cur = p
     return False
 
@@ -126,8 +139,14 @@ def check_try(ctx, fb, rt):
         for f in fs:
             for n in functor_invocations(f):
                 ninv += 1
-                if not in_try_with_catch_all(f, n['i']):
+                bad = []
+                if not in_try_with_catch_all(f, n['i'], bad):
                     need.setdefault(f.key, f.loc(n))
+                for h in bad:
+                    ctx.report(rt, 'R-TRY %s typed handler' % f.qn, f.loc(f.nodes[h]),
+                               'a handler of the try block around the callback completes the step without '
+                               'current_exception(): exceptions of that type do not become the Exception state',
+                               'class: %s' % cls[:300])
         if not need:
             if any(functor_invocations(f) for f in fs):
                 ctx.instance(rt, 'R-TRY ' + cls[:160], dict(cls=cls[:200], protected='at the invocation'))
@@ -155,9 +174,15 @@ def check_try(ctx, fb, rt):
                 # not called inside the class: instantiated but unused helper
                 continue
             for f, n in callers:
-                if not in_try_with_catch_all(f, n['i']):
+                bad = []
+                if not in_try_with_catch_all(f, n['i'], bad):
                     need.setdefault(f.key, f.loc(n))
                     work.append(f.key)
+                for h in bad:
+                    ctx.report(rt, 'R-TRY %s typed handler' % f.qn, f.loc(f.nodes[h]),
+                               'a handler of the try block around the callback completes the step without '
+                               'current_exception(): exceptions of that type do not become the Exception state',
+                               'class: %s' % cls[:300])
         ctx.instance(rt, 'R-TRY ' + cls[:160], dict(cls=cls[:200], protected='by a caller\'s try block'))
         if unprotected_entry:
             g, loc = unprotected_entry
